@@ -34,3 +34,351 @@ Proof. exact font_migratable_below_46. Qed.
 (* the bundled database has 12 Migrate pairs *)
 Theorem C15_bundled_migrations_count : length bundled_migrations = 12%nat.
 Proof. exact bundled_migrations_count. Qed.
+
+(* ==== the four code paths themselves (Proofs/MigratePaths.v), on the models of rbx_binary and rbx_xml, for an arbitrary database in
+   which class.pname is a canonical legacy property migrating to q (itself canonical and serializable): binary read, XML read, XML
+   write and binary write all deliver the same (q, w) with w the migrated value and never the legacy name; an explicit value of q
+   wins on every path and in both encounter orders; instantiated on all 12 entries (52 class/legacy pairs with inheritance) of the
+   bundled database.  When the migration fails the four paths do four different things (recorded finding): *_refuted. *)
+From RbxVerif Require Import MigratePaths.
+Open Scope N_scope.
+
+Theorem C15_migrate_paths_agree :
+  forall (d : db) (ft : font_table) (bt : brick_table) (class pname : bytes) 
+         (pd : pdesc) (q : string) (op : migop) (qd qs : pdesc),
+       find_desc_bin d (string_of_bytes class) (string_of_bytes pname) = Ok (Some (pd, Some pd)) ->
+       pd_kind pd = KCanon (PMigrate q op) ->
+       find_desc_bin d (string_of_bytes class) q = Ok (Some (qd, Some qs)) ->
+       pd_name qd = q ->
+       forall v w : value,
+       migrate ft bt op v = Some w ->
+       bin_read_delivers d ft bt class pname q v w /\
+       xml_read_delivers d ft bt class pname pd q v w /\
+       xml_write_delivers d ft bt class pname q v w /\ bin_write_delivers d ft bt class pname q op qs v w.
+Proof. exact migrate_paths_agree. Qed.
+
+Theorem C15_migrate_paths_explicit_wins :
+  forall (d : db) (ft : font_table) (bt : brick_table) (class pname : bytes) 
+         (pd : pdesc) (q : string) (op : migop),
+       find_desc_bin d (string_of_bytes class) (string_of_bytes pname) = Ok (Some (pd, Some pd)) ->
+       pd_kind pd = KCanon (PMigrate q op) ->
+       forall v : value,
+       (forall (infl : bytes -> N -> option bytes) (uid : value) (lim : option N) 
+          (ty : BinValues.wire_type) (i : BinFile.dinst),
+        Bin.has_prop i (bytes_of_string q) = true ->
+        exists (name : bytes) (cty : N) (mg : option (bytes * migop)),
+          BinFile.find_canonical_property d ty class pname = Ok (Some (name, cty, mg)) /\
+          BinFile.add_property
+            {|
+              BinFile.dp_font := ft;
+              BinFile.dp_brick := bt;
+              BinFile.dp_inflate := infl;
+              BinFile.dp_fresh_uid := uid;
+              BinFile.dp_lim := lim
+            |} i name mg v = i) /\
+       (forall (o : XmlValues.xoracle) (h : bytes -> option bytes) (beh : XmlFile.dbehavior) 
+          (id : N) (ty : bytes) (st st1 : XmlFile.dstate) (evs rest : list XmlEvents.revent)
+          (props : list (bytes * value)) (x v0 : value),
+        beh <> XmlFile.DNoReflection ->
+        let e :=
+          {|
+            XmlFile.xe_db := d;
+            XmlFile.xe_font := ft;
+            XmlFile.xe_brick := bt;
+            XmlFile.xe_o := o;
+            XmlFile.xe_hash := h
+          |} in
+        XmlFile.read_prop_value e st ty id (bytes_of_string (pd_name pd)) evs = Ok (Some v0, st1, rest) ->
+        XmlValues.try_convert o v0 (XmlFile.dtype_vt (pd_type pd)) = Ok v ->
+        CodecDom.bfind (bytes_of_string q) props = Some x ->
+        XmlFile.deserialize_property e beh class id ty pname st props evs = Ok (st1, props, rest)) /\
+       (forall (o : XmlValues.xoracle) (h : bytes -> option bytes) (beh : XmlFile.ebehavior)
+          (keys : list bytes) (st : XmlFile.estate) (v0 : value),
+        beh <> XmlFile.ENoReflection ->
+        let e :=
+          {|
+            XmlFile.xe_db := d;
+            XmlFile.xe_font := ft;
+            XmlFile.xe_brick := bt;
+            XmlFile.xe_o := o;
+            XmlFile.xe_hash := h
+          |} in
+        XmlValues.try_convert o v0 (XmlFile.dtype_vt (pd_type pd)) = Ok v ->
+        XmlFile.has_explicit_new_value e class pname q keys = Ok true ->
+        XmlFile.serialize_property e beh class keys st pname v0 = Ok ([], st)) /\
+       (forall (quant : f32 -> N) (order : list bytes -> list bytes) (hash : list (bytes * bytes))
+          (pi : BinFile.prop_info) (ord : list bytes) (i : CodecDom.inst) (ex : value),
+        bytes_eqb (bytes_of_string q) BinFile.NAME = false ->
+        BinFile.pi_migration pi = Some op ->
+        CodecDom.bfind (bytes_of_string q) (CodecDom.i_props i) = Some ex ->
+        vtype ex = mig_out_type op ->
+        BinFile.prop_value
+          {|
+            BinFile.ep_font := ft;
+            BinFile.ep_brick := bt;
+            BinFile.ep_quant := quant;
+            BinFile.ep_order := order;
+            BinFile.ep_hash := hash
+          |} (bytes_of_string q) pi ord i = ex).
+Proof. exact migrate_paths_explicit_wins. Qed.
+
+Theorem C15_migrate_failure_paths_disagree_refuted :
+  forall (d : db) (ft : font_table) (bt : brick_table) (class pname : bytes) 
+         (pd : pdesc) (q : string) (op : migop),
+       find_desc_bin d (string_of_bytes class) (string_of_bytes pname) = Ok (Some (pd, Some pd)) ->
+       pd_kind pd = KCanon (PMigrate q op) ->
+       forall v : value,
+       migrate ft bt op v = None ->
+       (forall (infl : bytes -> N -> option bytes) (uid : value) (lim : option N) 
+          (ty : BinValues.wire_type) (i : BinFile.dinst),
+        exists (name : bytes) (cty : N) (mg : option (bytes * migop)),
+          BinFile.find_canonical_property d ty class pname = Ok (Some (name, cty, mg)) /\
+          BinFile.add_property
+            {|
+              BinFile.dp_font := ft;
+              BinFile.dp_brick := bt;
+              BinFile.dp_inflate := infl;
+              BinFile.dp_fresh_uid := uid;
+              BinFile.dp_lim := lim
+            |} i name mg v = i) /\
+       (forall (o : XmlValues.xoracle) (h : bytes -> option bytes) (beh : XmlFile.dbehavior) 
+          (id : N) (ty : bytes) (st st1 : XmlFile.dstate) (evs rest : list XmlEvents.revent)
+          (props : list (bytes * value)) (v0 : value),
+        beh <> XmlFile.DNoReflection ->
+        let e :=
+          {|
+            XmlFile.xe_db := d;
+            XmlFile.xe_font := ft;
+            XmlFile.xe_brick := bt;
+            XmlFile.xe_o := o;
+            XmlFile.xe_hash := h
+          |} in
+        XmlFile.read_prop_value e st ty id (bytes_of_string (pd_name pd)) evs = Ok (Some v0, st1, rest) ->
+        XmlValues.try_convert o v0 (XmlFile.dtype_vt (pd_type pd)) = Ok v ->
+        CodecDom.bfind (bytes_of_string q) props = None ->
+        XmlFile.deserialize_property e beh class id ty pname st props evs = Err XmlValues.DE_MIGRATION) /\
+       (forall (o : XmlValues.xoracle) (h : bytes -> option bytes) (beh : XmlFile.ebehavior)
+          (keys : list bytes) (st : XmlFile.estate) (v0 : value),
+        beh <> XmlFile.ENoReflection ->
+        let e :=
+          {|
+            XmlFile.xe_db := d;
+            XmlFile.xe_font := ft;
+            XmlFile.xe_brick := bt;
+            XmlFile.xe_o := o;
+            XmlFile.xe_hash := h
+          |} in
+        XmlValues.try_convert o v0 (XmlFile.dtype_vt (pd_type pd)) = Ok v ->
+        XmlFile.has_explicit_new_value e class pname q keys = Ok false ->
+        XmlFile.serialize_property e beh class keys st pname v0 =
+        XmlFile.write_value_xml e st (bytes_of_string (pd_name pd)) v) /\
+       (forall (quant : f32 -> N) (order : list bytes -> list bytes) (hash : list (bytes * bytes))
+          (pi : BinFile.prop_info) (ord : list bytes) (i : CodecDom.inst) (a : bytes),
+        bytes_eqb (bytes_of_string q) BinFile.NAME = false ->
+        BinFile.pi_migration pi = Some op ->
+        CodecDom.bfind (bytes_of_string q) (CodecDom.i_props i) = None ->
+        find (BinWrite.carried i) ord = Some a ->
+        CodecDom.bfind a (CodecDom.i_props i) = Some v ->
+        BinFile.prop_value
+          {|
+            BinFile.ep_font := ft;
+            BinFile.ep_brick := bt;
+            BinFile.ep_quant := quant;
+            BinFile.ep_order := order;
+            BinFile.ep_hash := hash
+          |} (bytes_of_string q) pi ord i = v).
+Proof. exact migrate_failure_paths_disagree_refuted. Qed.
+
+Theorem C15_raw_legacy_value_in_new_column :
+  forall (op : migop) (v : value) (wt : BinValues.wire_type) (ctx : BinValues.enc_ctx) (vs : list value),
+       vtype v = mig_in_type op ->
+       BinValues.from_rbx_type (mig_out_type op) = Some wt ->
+       BinValues.enc_col wt ctx (v :: vs) = Err BinValues.EE_TYPE_MISMATCH.
+Proof. exact raw_legacy_value_in_new_column. Qed.
+
+Theorem C15_Bin_bin_read_explicit_wins_both_orders :
+  forall (p : BinFile.dec_params) (i : BinFile.dinst) (name nn : bytes) (op : migop) (v ex : value),
+       let legacy := fun i0 : BinFile.dinst => BinFile.add_property p i0 name (Some (nn, op)) v in
+       let explicit := fun i0 : BinFile.dinst => BinFile.add_property p i0 nn None ex in
+       legacy (explicit i) = explicit i /\
+       CodecDom.bfind nn (BinFile.collect_props (BinFile.di_props (legacy (explicit i)))) = Some ex /\
+       CodecDom.bfind nn (BinFile.collect_props (BinFile.di_props (explicit (legacy i)))) = Some ex.
+Proof. exact Bin.bin_read_explicit_wins_both_orders. Qed.
+
+Theorem C15_Bin_bin_read_legacy_name_never_a_key :
+  forall (p : BinFile.dec_params) (i : BinFile.dinst) (name nn : bytes) (op : migop) 
+         (v : value) (legacy : bytes),
+       legacy <> nn ->
+       ~ In legacy (List.map fst (BinFile.di_props i)) ->
+       ~ In legacy (List.map fst (BinFile.di_props (BinFile.add_property p i name (Some (nn, op)) v))) /\
+       CodecDom.bfind legacy
+         (BinFile.collect_props (BinFile.di_props (BinFile.add_property p i name (Some (nn, op)) v))) = None.
+Proof. exact Bin.bin_read_legacy_name_never_a_key. Qed.
+
+Theorem C15_Xml_xml_read_explicit_then_legacy :
+  forall (e : XmlFile.xenv) (beh : XmlFile.dbehavior) (class : bytes) (id : N)
+         (props : list (bytes * value)) (tyq qname : bytes) (qd qs : pdesc) (st : XmlFile.dstate)
+         (evs : list XmlEvents.revent) (x0 x : value) (st1 : XmlFile.dstate) (r1 : list XmlEvents.revent)
+         (ty pname : bytes) (pd ser : pdesc) (q : string) (op : migop) (v0 v : value) 
+         (st2 : XmlFile.dstate) (r2 : list XmlEvents.revent),
+       beh <> XmlFile.DNoReflection ->
+       find_desc_xml (XmlFile.xe_db e) (XmlFile.S_ class) (XmlFile.S_ qname) = Ok (Some (qd, qs)) ->
+       match pd_kind qd with
+       | KCanon (PMigrate _ _) => False
+       | _ => True
+       end ->
+       pd_name qd = q ->
+       XmlFile.read_prop_value e st tyq id (bytes_of_string (pd_name qd)) evs = Ok (Some x0, st1, r1) ->
+       XmlValues.try_convert (XmlFile.xe_o e) x0 (XmlFile.dtype_vt (pd_type qd)) = Ok x ->
+       find_desc_xml (XmlFile.xe_db e) (XmlFile.S_ class) (XmlFile.S_ pname) = Ok (Some (pd, ser)) ->
+       pd_kind pd = KCanon (PMigrate q op) ->
+       XmlFile.read_prop_value e st1 ty id (bytes_of_string (pd_name pd)) r1 = Ok (Some v0, st2, r2) ->
+       XmlValues.try_convert (XmlFile.xe_o e) v0 (XmlFile.dtype_vt (pd_type pd)) = Ok v ->
+       exists props1 : list (bytes * value),
+         XmlFile.deserialize_property e beh class id tyq qname st props evs = Ok (st1, props1, r1) /\
+         XmlFile.deserialize_property e beh class id ty pname st1 props1 r1 = Ok (st2, props1, r2) /\
+         CodecDom.bfind (bytes_of_string q) props1 = Some x.
+Proof. exact Xml.xml_read_explicit_then_legacy. Qed.
+
+Theorem C15_Xml_xml_read_legacy_then_explicit :
+  forall (e : XmlFile.xenv) (beh : XmlFile.dbehavior) (class : bytes) (id : N)
+         (props : list (bytes * value)) (ty pname : bytes) (pd ser : pdesc) (q : string) 
+         (op : migop) (st : XmlFile.dstate) (evs : list XmlEvents.revent) (v0 v : value)
+         (st1 : XmlFile.dstate) (r1 : list XmlEvents.revent) (tyq qname : bytes) 
+         (qd qs : pdesc) (x0 x : value) (st2 : XmlFile.dstate) (r2 : list XmlEvents.revent),
+       beh <> XmlFile.DNoReflection ->
+       find_desc_xml (XmlFile.xe_db e) (XmlFile.S_ class) (XmlFile.S_ pname) = Ok (Some (pd, ser)) ->
+       pd_kind pd = KCanon (PMigrate q op) ->
+       XmlFile.read_prop_value e st ty id (bytes_of_string (pd_name pd)) evs = Ok (Some v0, st1, r1) ->
+       XmlValues.try_convert (XmlFile.xe_o e) v0 (XmlFile.dtype_vt (pd_type pd)) = Ok v ->
+       CodecDom.bfind (bytes_of_string q) props <> None \/
+       migrate (XmlFile.xe_font e) (XmlFile.xe_brick e) op v <> None ->
+       find_desc_xml (XmlFile.xe_db e) (XmlFile.S_ class) (XmlFile.S_ qname) = Ok (Some (qd, qs)) ->
+       match pd_kind qd with
+       | KCanon (PMigrate _ _) => False
+       | _ => True
+       end ->
+       pd_name qd = q ->
+       XmlFile.read_prop_value e st1 tyq id (bytes_of_string (pd_name qd)) r1 = Ok (Some x0, st2, r2) ->
+       XmlValues.try_convert (XmlFile.xe_o e) x0 (XmlFile.dtype_vt (pd_type qd)) = Ok x ->
+       exists props1 : list (bytes * value),
+         XmlFile.deserialize_property e beh class id ty pname st props evs = Ok (st1, props1, r1) /\
+         XmlFile.deserialize_property e beh class id tyq qname st1 props1 r1 =
+         Ok (st2, CodecDom.bupd (bytes_of_string q) x props1, r2) /\
+         CodecDom.bfind (bytes_of_string q) (CodecDom.bupd (bytes_of_string q) x props1) = Some x.
+Proof. exact Xml.xml_read_legacy_then_explicit. Qed.
+
+Theorem C15_Xml_xml_read_legacy_name_never_a_key :
+  forall (e : XmlFile.xenv) (beh : XmlFile.dbehavior) (class : bytes) (inst_id : N) 
+         (ty pname : bytes) (pd ser : pdesc) (q : string) (op : migop),
+       beh <> XmlFile.DNoReflection ->
+       find_desc_xml (XmlFile.xe_db e) (XmlFile.S_ class) (XmlFile.S_ pname) = Ok (Some (pd, ser)) ->
+       pd_kind pd = KCanon (PMigrate q op) ->
+       forall (st st1 : XmlFile.dstate) (evs rest : list XmlEvents.revent) (v0 v : value),
+       XmlFile.read_prop_value e st ty inst_id (bytes_of_string (pd_name pd)) evs = Ok (Some v0, st1, rest) ->
+       XmlValues.try_convert (XmlFile.xe_o e) v0 (XmlFile.dtype_vt (pd_type pd)) = Ok v ->
+       forall (props : list (bytes * value)) (st' : XmlFile.dstate) (props' : list (bytes * value))
+         (rest' : list XmlEvents.revent) (legacy : bytes),
+       legacy <> bytes_of_string q ->
+       CodecDom.bfind legacy props = None ->
+       XmlFile.deserialize_property e beh class inst_id ty pname st props evs = Ok (st', props', rest') ->
+       CodecDom.bfind legacy props' = None.
+Proof. exact Xml.xml_read_legacy_name_never_a_key. Qed.
+
+Theorem C15_Xml_xml_read_failure_depends_on_element_order_refuted :
+  forall (e : XmlFile.xenv) (beh : XmlFile.dbehavior) (class : bytes) (inst_id : N) 
+         (ty pname : bytes) (pd ser : pdesc) (q : string) (op : migop),
+       beh <> XmlFile.DNoReflection ->
+       find_desc_xml (XmlFile.xe_db e) (XmlFile.S_ class) (XmlFile.S_ pname) = Ok (Some (pd, ser)) ->
+       pd_kind pd = KCanon (PMigrate q op) ->
+       forall (st st1 : XmlFile.dstate) (evs rest : list XmlEvents.revent) (v0 v : value),
+       XmlFile.read_prop_value e st ty inst_id (bytes_of_string (pd_name pd)) evs = Ok (Some v0, st1, rest) ->
+       XmlValues.try_convert (XmlFile.xe_o e) v0 (XmlFile.dtype_vt (pd_type pd)) = Ok v ->
+       forall props : list (bytes * value),
+       migrate (XmlFile.xe_font e) (XmlFile.xe_brick e) op v = None ->
+       (forall x : value,
+        CodecDom.bfind (bytes_of_string q) props = Some x ->
+        XmlFile.deserialize_property e beh class inst_id ty pname st props evs = Ok (st1, props, rest)) /\
+       (CodecDom.bfind (bytes_of_string q) props = None ->
+        XmlFile.deserialize_property e beh class inst_id ty pname st props evs = Err XmlValues.DE_MIGRATION).
+Proof. exact Xml.xml_read_failure_depends_on_element_order_refuted. Qed.
+
+Theorem C15_Bundled_bundled_entries_ok :
+  forallb (entry_ok database) bundled_migrations = true.
+Proof. exact Bundled.bundled_entries_ok. Qed.
+
+Theorem C15_Bundled_bundled_classes_ok :
+  forallb (fun c : cdesc => forallb (class_entry_ok database (cd_name c)) Bundled.bundled_legacy_names)
+         (db_classes database) = true.
+Proof. exact Bundled.bundled_classes_ok. Qed.
+
+Theorem C15_Bundled_bundled_migrate_paths_agree :
+  forall (c p q : string) (op : migop) (v w : value),
+       In (c, p, q, op) bundled_migrations ->
+       mig op v = Some w ->
+       exists pd qs : pdesc,
+         pd_name pd = p /\
+         bin_read_delivers database font_migration_table brick_color_table (bytes_of_string c)
+           (bytes_of_string p) q v w /\
+         xml_read_delivers database font_migration_table brick_color_table (bytes_of_string c)
+           (bytes_of_string p) pd q v w /\
+         xml_write_delivers database font_migration_table brick_color_table (bytes_of_string c)
+           (bytes_of_string p) q v w /\
+         bin_write_delivers database font_migration_table brick_color_table (bytes_of_string c)
+           (bytes_of_string p) q op qs v w.
+Proof. exact Bundled.bundled_migrate_paths_agree. Qed.
+
+Theorem C15_Bundled_bundled_migrate_paths_agree_inherited :
+  forall (c : cdesc) (p : string) (pd : pdesc) (ser : option pdesc) (q : string) 
+         (op : migop) (v w : value),
+       In c (db_classes database) ->
+       In p Bundled.bundled_legacy_names ->
+       find_desc_bin database (cd_name c) p = Ok (Some (pd, ser)) ->
+       pd_kind pd = KCanon (PMigrate q op) ->
+       mig op v = Some w ->
+       exists qs : pdesc,
+         bin_read_delivers database font_migration_table brick_color_table (bytes_of_string (cd_name c))
+           (bytes_of_string p) q v w /\
+         xml_read_delivers database font_migration_table brick_color_table (bytes_of_string (cd_name c))
+           (bytes_of_string p) pd q v w /\
+         xml_write_delivers database font_migration_table brick_color_table (bytes_of_string (cd_name c))
+           (bytes_of_string p) q v w /\
+         bin_write_delivers database font_migration_table brick_color_table (bytes_of_string (cd_name c))
+           (bytes_of_string p) q op qs v w.
+Proof. exact Bundled.bundled_migrate_paths_agree_inherited. Qed.
+
+Theorem C15_EndToEnd_e2e_explicit_wins :
+  EndToEnd.bin EndToEnd.db_none EndToEnd.db_first (EndToEnd.both "BrickColor" 194) =
+       EndToEnd.explicit_kept /\
+       EndToEnd.bin EndToEnd.db_none EndToEnd.db_last (EndToEnd.both "Tint" 194) = EndToEnd.explicit_kept /\
+       EndToEnd.xml EndToEnd.db_none EndToEnd.db_first XmlFile.DIgnoreUnknown
+         (EndToEnd.both "BrickColor" 194) = EndToEnd.explicit_kept /\
+       EndToEnd.xml EndToEnd.db_none EndToEnd.db_last XmlFile.DIgnoreUnknown (EndToEnd.both "Tint" 194) =
+       EndToEnd.explicit_kept /\
+       EndToEnd.bin EndToEnd.db_first EndToEnd.db_none (EndToEnd.both "BrickColor" 194) =
+       EndToEnd.explicit_kept /\
+       EndToEnd.xml EndToEnd.db_first EndToEnd.db_none XmlFile.DReadUnknown (EndToEnd.both "BrickColor" 194) =
+       EndToEnd.explicit_kept.
+Proof. exact EndToEnd.e2e_explicit_wins. Qed.
+
+Theorem C15_EndToEnd_e2e_paths_agree :
+  EndToEnd.bin EndToEnd.db_none EndToEnd.db_first (EndToEnd.only "BrickColor" 194) =
+       EndToEnd.migrated_kept /\
+       EndToEnd.bin EndToEnd.db_first EndToEnd.db_none (EndToEnd.only "BrickColor" 194) =
+       EndToEnd.migrated_kept /\
+       EndToEnd.xml EndToEnd.db_none EndToEnd.db_first XmlFile.DIgnoreUnknown
+         (EndToEnd.only "BrickColor" 194) = EndToEnd.migrated_kept /\
+       EndToEnd.xml EndToEnd.db_first EndToEnd.db_none XmlFile.DReadUnknown (EndToEnd.only "BrickColor" 194) =
+       EndToEnd.migrated_kept.
+Proof. exact EndToEnd.e2e_paths_agree. Qed.
+
+Theorem C15_EndToEnd_e2e_failure_paths_disagree_refuted :
+  EndToEnd.bin EndToEnd.db_none EndToEnd.db_first (EndToEnd.only "BrickColor" 5) = Ok [[]] /\
+       EndToEnd.bin EndToEnd.db_first EndToEnd.db_none (EndToEnd.only "BrickColor" 5) =
+       Err BinValues.EE_TYPE_MISMATCH /\
+       EndToEnd.xml EndToEnd.db_none EndToEnd.db_first XmlFile.DIgnoreUnknown (EndToEnd.only "BrickColor" 5) =
+       Err XmlValues.DE_MIGRATION /\
+       EndToEnd.xml EndToEnd.db_first EndToEnd.db_none XmlFile.DReadUnknown (EndToEnd.only "BrickColor" 5) =
+       Ok [[(EndToEnd.bs "BrickColor", VInt32 5)]].
+Proof. exact EndToEnd.e2e_failure_paths_disagree_refuted. Qed.
+
